@@ -242,20 +242,31 @@ def check_history(calls, init_state, pid='C05'):
         got = list(s.result[1])
         if len(got) != len(set(got)):
             raise Violation('%s/iteration-duplicate' % pid, 'iteration returned a key twice: %r\n%s' % (s, fmt(calls)))
-        possible = {k for k, _ in init_state}
-        for c in lin:
-            if c.inv < s.res and c.op[0] in ('set', 'add', 'incr', 'decr'):
-                possible.add(op_key(c.op))
-        state = init_state
+        # window of witness positions at which the scan may take effect: after every call that completed before it
+        # started, before every call invoked after it returned
+        states = [init_state]
+        st_ = init_state
         for c in witness:
+            st_, _ = model_apply(st_, c)
+            states.append(st_)
+        lo = 0
+        hi = len(witness)
+        for i, c in enumerate(witness):
             if c.res < s.inv:
-                state, _ = model_apply(state, c)
-        required = {k for k, _ in state}
-        for c in lin:
-            if c.res >= s.inv and c.inv <= s.res and c.op[0] in ('pop', 'delete'):
-                required.discard(op_key(c.op))
-        # calls before the scan that the witness orders after a concurrent removal may differ; only calls that
-        # completed before the scan started were applied, in an order that explains all results
+                lo = max(lo, i + 1)
+            if c.inv > s.res:
+                hi = min(hi, i)
+        hi = max(hi, lo)
+        window = states[lo:hi + 1]
+        touched = {op_key(c.op) for c in lin if c.res >= s.inv and c.inv <= s.res}
+        possible = set()
+        required = None
+        for w in window:
+            ks = {k for k, _ in w}
+            possible |= ks
+            required = ks if required is None else (required & ks)
+        required = (required or set()) - touched
+        possible |= touched
         if not set(got) <= possible:
             raise Violation('%s/iteration-phantom' % pid, 'iteration returned %r, possible keys %r\n%s' % (got, sorted(possible), fmt(calls)))
         if not required <= set(got):
